@@ -1030,7 +1030,11 @@ func (c18) Gen(r *kern.Rng, tier string, idx int) *Trace {
 		sc.Prior = []scen.Prior{genPrior(r, "flate")}
 	}
 	tr := &Trace{Property: "C18", Family: "R-* cross-level", R: sc}
-	if idx%40 == 7 {
+	every := 40
+	if tier == "thorough" {
+		every = 200
+	}
+	if idx%every == 7 {
 		// every truncation point of a small valid stream, at every level
 		sc.In = scen.InputSpec{Parts: []scen.StreamSpec{genStream(r, pkg, 3000, 0)}}
 		sc.Prior = nil
